@@ -1,8 +1,8 @@
 SPECIFICATION Spec
 CONSTANTS
-  TreeSet <- Trees3
-  OptSet <- OptsB
-  MaxBackups = 2
+  TreeSet <- Trees2
+  OptSet <- OptsA
+  MaxBackups = 3
   MaxDeletes = 1
   MaxFaults = 0
   AllowCrash = TRUE
